@@ -192,17 +192,17 @@ func (c *CuckooTraceChecker) Maintain() {
 	c.met.Gauge(CurrentCapacity, float64(c.capacity))
 	c.mut.RUnlock()
 
+	c.mut.Lock()
+	defer c.mut.Unlock()
+
 	// once the current one is half loaded, we can start using the future one too
+	// (drain normally has done this already, at the moment the load crossed 0.5)
 	if c.future == nil && currentLoadFactor > 0.5 {
-		c.mut.Lock()
 		c.future = cuckoo.NewFilter(c.capacity)
-		c.mut.Unlock()
 	}
 
 	// if the current one is full, cycle the filters
 	if currentLoadFactor > 0.99 {
-		c.mut.Lock()
-		defer c.mut.Unlock()
 		c.current = c.future
 		c.future = cuckoo.NewFilter(c.capacity)
 	}
